@@ -286,6 +286,25 @@ pub fn check_e1(ctx: &Ctx, prop: Prop, out: &mut Outcome, q: u32, t: u32) {
     finish(ctx, rule_for(prop), acc, found, out, "e1", &exec, &|c, f| minimize(c, f));
 }
 
+/// medium scale (capacities 64..=400, 600..=2500 ops, near-uniform keys): ghost lists of ~100
+/// entries, ARC targets in the hundreds, segments that fill and drain many times
+pub fn check_e1_medium(ctx: &Ctx, prop: Prop, out: &mut Outcome, q: u32, t: u32) {
+    let mut profile = profile_for(prop, ctx.tier == Tier::Thorough);
+    profile.medium = true;
+    profile.min_ops = 600;
+    profile.max_ops = if ctx.tier == Tier::Thorough { 2500 } else { 1500 };
+    profile.long_pct = 0;
+    profile.w_iter = profile.w_iter.min(1);
+    profile.w_clone = profile.w_clone.min(1);
+    profile.w_purge = 0;
+    profile.str_pct = 0;
+    let strat = move || case_strategy(&profile);
+    let exec = move |c: &Case| exec_case(c, prop);
+    journal_for(ctx, "e1");
+    let (acc, found) = run_engine(&strat, &exec, &|c: &Case| c.clone(), &ctx.id, ctx.seed, 0x3ed1 + prop as u64, ctx.workers, ctx.cases(q, t), &ctx.known);
+    finish(ctx, "", acc, found, out, "e1", &exec, &|c, f| minimize(c, f));
+}
+
 /// C03 under an inconsistent BuildHasher (reseeds itself every n calls): safe but
 /// contract-breaking user code; only memory safety is demanded (no model, no audit)
 pub fn check_e1_chaos(ctx: &Ctx, out: &mut Outcome, q: u32, t: u32) {
